@@ -2,7 +2,9 @@
 (* Enumerates structures with up to MaxMembers members over a member alphabet, and array lengths x
    passing modes; one CASE per structure / per (length, mode, element type). *)
 EXTENDS Layout, Json, TLCExt
-CONSTANTS MaxMembers, MaxLen
+CONSTANTS MaxMembers, MaxLen,
+          MaxExtra,     \* a structure that holds a member of the Extra alphabet has at most MaxExtra members
+          Deep          \* structures over the alignment alphabet {u8, i16, i32, i64, i128} have up to Deep members
 
 Prim(t) == [k |-> "prim", t |-> t]
 P8 == [k |-> "struct", ms |-> <<Prim("u8"), Prim("i32")>>]           \* struct P8 { a: u8, x: i32 }
@@ -10,7 +12,20 @@ W2 == [k |-> "word", bytes |-> 2, malign |-> 1]                                 
 Alphabet == { Prim("i8"), Prim("i16"), Prim("i32"), Prim("i64"), Prim("i128"), Prim("u8"), Prim("bool"), Prim("usize"),
               [k |-> "ptr"], [k |-> "array", n |-> 2, e |-> Prim("i16")], [k |-> "array", n |-> 3, e |-> Prim("u8")],
               [k |-> "array", n |-> 0, e |-> Prim("i64")], P8, W2 }
-Name(ty) == CASE ty.k = "prim" -> ty.t
+(* Dimension audit: further type forms.  Pointers to arrays and arrays of pointers, words of every declared size
+   (word8 WA { a: u8 }, word32 WB { a: u16, b: u8, c: u8 }, word64 WC { a: i32, b: i32 }, word128 WE { a: i64, b: i64 }),
+   a structure nested three deep (Q3 { a: u8, p: P8, b: u8 } as a member).  The field nm carries the source spelling. *)
+PA == [k |-> "ptr", nm |-> "&[4]u8"]
+AP == [k |-> "array", n |-> 2, e |-> [k |-> "ptr"], nm |-> "[2]&i32"]
+WA == [k |-> "word", bytes |-> 1, malign |-> 1, nm |-> "WA"]
+WB == [k |-> "word", bytes |-> 4, malign |-> 2, nm |-> "WB"]
+WC == [k |-> "word", bytes |-> 8, malign |-> 4, nm |-> "WC"]
+WE == [k |-> "word", bytes |-> 16, malign |-> 8, nm |-> "WE"]
+Q3 == [k |-> "struct", ms |-> <<Prim("u8"), P8, Prim("u8")>>, nm |-> "Q3"]
+Extra == { PA, AP, WA, WB, WC, WE, Q3 }
+AlignAlphabet == { Prim("u8"), Prim("i16"), Prim("i32"), Prim("i64"), Prim("i128") }
+Name(ty) == IF "nm" \in DOMAIN ty THEN ty.nm ELSE
+            CASE ty.k = "prim" -> ty.t
               [] ty.k = "ptr" -> "&i32"
               [] ty.k = "array" -> (CASE ty.n = 0 -> "[0]" [] ty.n = 2 -> "[2]" [] ty.n = 3 -> "[3]") \o ty.e.t
               [] ty.k = "struct" -> "P8"
@@ -56,7 +71,13 @@ HugeOK(n) == \A i \in 5..8 : n[i] = 0
 VARIABLES ms, done, len, mode, elem
 vars == <<ms, done, len, mode, elem>>
 Init == ms = <<>> /\ done = "no" /\ len = 0 /\ mode = "" /\ elem = ""
-Grow == done = "no" /\ Len(ms) < MaxMembers /\ \E ty \in Alphabet : ms' = Append(ms, ty) /\ UNCHANGED <<done, len, mode, elem>>
+HasExtra == \E i \in 1..Len(ms) : ms[i] \in Extra
+AllAlign == \A i \in 1..Len(ms) : ms[i] \in AlignAlphabet
+Grow == /\ done = "no"
+        /\ \/ (Len(ms) < (IF HasExtra THEN MaxExtra ELSE MaxMembers) /\ \E ty \in Alphabet : ms' = Append(ms, ty))
+           \/ (Len(ms) < MaxExtra /\ \E ty \in Extra : ms' = Append(ms, ty))
+           \/ (AllAlign /\ Len(ms) < Deep /\ \E ty \in AlignAlphabet : ms' = Append(ms, ty))
+        /\ UNCHANGED <<done, len, mode, elem>>
 FinishStruct == done = "no" /\ done' = "struct" /\ UNCHANGED <<ms, len, mode, elem>>
 PickLen == /\ done = "no" /\ ms = <<>> /\ done' = "len"
            /\ len' \in 0..MaxLen /\ mode' \in Modes /\ elem' \in Elems /\ UNCHANGED ms
